@@ -7,18 +7,28 @@ Units
                        router-id / per-family ADD-PATH mode symbolic.  The peer OPEN is encoded by the kit encoder
                        (kits.session.peer_open_body), decoded by the REAL Open.unpack_message, negotiated by the REAL
                        Negotiated.sent()/received(); every Negotiated field must equal oracle.openmsg.negotiate, which
-                       works from ITS OWN decoding of the two byte strings.
-  nego/refusal/<conf>  the real Protocol.validate_open (Negotiated.validate) on fully symbolic fixed fields: refused iff
-                       the RFC 4271 6.2 / RFC 6286 table says so, and with that code/subcode.
+                       works from ITS OWN decoding of the two byte strings (ours: the real pack_message output).
+  nego/refusal         the real Protocol.validate_open (Negotiated.validate) on fully symbolic fixed fields, one
+                       configuration per fork (eBGP/iBGP, 2-byte/4-byte AS, ASN4 on/off): refused iff the
+                       RFC 4271 6.2 / RFC 6286 table says so, and with that code/subcode.
   nego/layout/<conf>   order permutations, duplicated capabilities, one/many optional parameters, RFC 9072 extended
-                       format for the PEER's OPEN, unknown capabilities: the result does not change.
-  roundtrip/<group>    our OPEN from each configuration: Message.unpack(OPEN, pack_message()[19:]) equals the original,
+                       format for the PEER's OPEN, an unknown capability: the result does not change.
+  roundtrip/all        our OPEN from each configuration: Message.unpack(OPEN, pack_message()[19:]) equals the original,
                        the bytes decode under the oracle to exactly what the configuration enables; the optional parameters
                        are swept across 255 bytes by the host name length (RFC 9072 on pack and unpack).
   raw/L<n>             the peer OPEN body as n free symbolic bytes through the real Open.unpack_message vs
                        oracle.decode_open: same accept/refuse class, same fields, only Notify escapes.
+  capvalue/all         one capability (code and length concrete) with a free symbolic VALUE through each real
+                       <Capability>.unpack_capability: the decoded object says what the oracle reads.
   requirepath/modes    RequirePath.setup with both send/receive modes symbolic (all 16 combinations proven at once).
   proto/read-open      Protocol.read_open: anything but an OPEN first is refused 5/1.
+
+Signatures of the defects of the pinned tree (see known_findings.json / the fix commits):
+  C07:nego:local-as-is-as-trans                         F9   local AS > 65535: Negotiated.local_as is AS_TRANS
+  C07:*:peer-as-ignores-asn4-capability*                     the AS of the peer's ASN4 capability is used only when its field is AS_TRANS
+  C07:refusal:router-id-collision-missed:4-byte-as-ibgp      iBGP test compares the 2-byte field with the configured local AS
+  C07:raw:wrong-notification:want=2/4:got=2/0 (got=2/5)      unknown optional parameter answered with Unspecific / Authentication Failure
+  C07:raw:rfc9072-non-ext-length-not-ignored                 extended format recognised only when Non-Ext OP Len is 255
 """
 from __future__ import annotations
 
@@ -27,7 +37,6 @@ from sx.core import sx_eq, s_and, s_or, s_not, s_implies, s_ite, SBytes, SInt, S
 from oracle import openmsg as O
 from kits import session as K
 
-import exabgp.bgp.message.open as open_mod
 import exabgp.bgp.message.open.capability.mp as mp_mod
 import exabgp.bgp.message.open.capability.addpath as addpath_mod
 import exabgp.bgp.message.open.capability.nexthop as nexthop_mod
@@ -58,12 +67,15 @@ ASSUMPTIONS = [
     'symbolic only in raw/*',
 ]
 BOUNDS = {
-    'quick': {'nego/caps': '10 configurations x (2^3 MP subsets x 2^5 capability presence bits x 4 next-hop sets), all values symbolic',
-              'nego/refusal': '7 configurations, every fixed field symbolic (AS 16+32 bit, hold 16 bit, router-id 32 bit)',
-              'nego/layout': '4 orders x 5 duplications x 4 layouts', 'roundtrip': '24 configurations + 255-byte sweep 250..260',
-              'raw': 'OPEN bodies of 0..14 symbolic bytes', 'requirepath': 'both modes symbolic 0..3'},
-    'thorough': {'nego/caps': '28 configurations, pool of 4 families', 'nego/refusal': '12 configurations',
-                 'raw': 'OPEN bodies of 0..17 symbolic bytes', 'roundtrip': '60 configurations + sweep 240..270'},
+    'quick': {'nego/caps': '10 configurations x (2^3 MP subsets of a pool of 3 families x 2^5 capability presence bits x 4 next-hop sets), '
+                           'all values symbolic (ASN4 32 bit, AS field 16 bit, hold time 16 bit, router-id 32 bit, ADD-PATH mode 0..3 per family)',
+              'nego/refusal': '7 configurations, every fixed field symbolic (AS 16+32 bit, hold 16 bit, router-id 32 bit), ASN4 presence forked',
+              'nego/layout': '2 configurations x 4 orders x 5 duplications x 4 layouts', 'roundtrip': '22 configurations + 255-byte sweep 250..260',
+              'raw': 'OPEN bodies of 0..14 free symbolic bytes', 'capvalue': '8 capability codes x 2-5 value lengths, value bytes free',
+              'requirepath': 'both modes symbolic 0..3'},
+    'thorough': {'nego/caps': '28 configurations, pool of 4 families (2^4 MP subsets)', 'nego/refusal': '12 configurations',
+                 'nego/layout': '4 configurations', 'raw': 'OPEN bodies of 0..15 free symbolic bytes', 'roundtrip': '45 configurations + sweep 240..270',
+                 'capvalue': 'same', 'requirepath': 'same'},
 }
 OUTSIDE = [
     'graceful restart, multisession, operational, software-version, paths-limit, link-local next hop capabilities (not in the property text)',
@@ -73,6 +85,7 @@ OUTSIDE = [
     'capability values whose length is not the one their RFC defines (RFC silent on the reaction): acceptance or 2/0 allowed in raw/*',
     'ADD-PATH send/receive octets outside 0..3 and ASN4 capabilities of length 2',
     'host names longer than 64 octets (truncated by the encoder by design of the draft)',
+    'extended next hop entries whose 2-octet NLRI SAFI has a non-zero high octet (ExaBGP reads the low octet only; no such SAFI exists)',
     'collision detection between two connections (RFC 4271 6.8) belongs to C10/C11',
 ]
 
@@ -163,9 +176,6 @@ REFUSAL_THOROUGH = REFUSAL_QUICK + [
     conf('t-rid-high', local_as=65000, peer_as=65000, rid='255.255.255.255'),
     conf('t-as4-ibgp-big', local_as=4294967295, peer_as=4294967295),
 ]
-
-_RID = {}
-
 
 def rid_bytes(text):
     return bytes(int(x) for x in text.split('.'))
@@ -344,11 +354,6 @@ def caps_covers(c):
 
 def mk_protocol(neighbor, neg):
     p = object.__new__(Protocol)
-
-    class API(dict):
-        def __missing__(self, k):
-            return False
-
     peer = type('P', (), {})()
     peer.neighbor = neighbor
     p.peer = peer
@@ -358,7 +363,9 @@ def mk_protocol(neighbor, neg):
     return p
 
 
-def h_refusal(ctx, c):
+def h_refusal(ctx, confs):
+    c = ctx.pick('conf', confs)
+    cname = c['name'] + ':'
     neighbor = K.neighbor_from(conf_text(c))
     has_asn4 = bool(ctx.bool('cap:asn4'))
     asn4_value = ctx.int('peer.asn4', 0, 4294967295)
@@ -394,7 +401,7 @@ def h_refusal(ctx, c):
     # (AS_TRANS) get their own signatures: each obligation is split by an implication, never by a value
     field_is_peer_as = sx_eq(as2, want['peer_as'])
     if got is None:
-        ctx.cover('accepted')
+        ctx.cover(cname + 'accepted')
         # accepted => no fault of the table is present (one obligation per fault so that each has its signature)
         ctx.check('no-bad-peer-as-accepted', s_implies(agree, s_not(table[(2, 2)])), sig='C07:refusal:bad-peer-as-accepted')
         ctx.check('consistent-peer-only', s_implies(s_not(agree), s_not(s_or(table[(2, 2)], table['identifier-collision']))),
@@ -409,21 +416,23 @@ def h_refusal(ctx, c):
                   info={'rfc': 'RFC 6286 2.2: same identifier as ours and the peer is in our AS (its AS number is in the capability, the field is AS_TRANS)',
                         'local_as': c['local_as']})
         ctx.check('no-bad-hold-time-accepted', s_not(table[(2, 6)]), sig='C07:refusal:hold-time-1-or-2-accepted')
-        return 'accepted'
-    ctx.cover('refused-%d-%d' % got)
+        return (c['name'], 'accepted')
+    ctx.cover(cname + 'refused-%d-%d' % got)
     if got == (2, 3):
-        ctx.cover('refused-2-3-collision' if text.startswith('BGP Identifier collision') else 'refused-2-3-zero')
+        ctx.cover(cname + ('refused-2-3-collision' if text.startswith('BGP Identifier collision') else 'refused-2-3-zero'))
     cond = table.get(got, False)
     ctx.check('refusal-justified', s_implies(agree, cond), sig='C07:refusal:unjustified:%d/%d' % got, info={'got': got})
     ctx.check('refusal-justified-capability', s_implies(s_not(agree), cond), sig='C07:refusal:peer-as-ignores-asn4-capability:refused',
               info={'got': got, 'rfc': 'RFC 6793 4.1: the AS number of the capability is the peer AS'})
-    return ('refused', got)
+    return (c['name'], 'refused', got)
 
 
-def refusal_covers(c):
-    tags = ['accepted', 'refused-2-2', 'refused-2-3', 'refused-2-3-zero', 'refused-2-6']
-    if c['local_as'] == c['peer_as'] and c['local_as'] <= 65535:
-        tags.append('refused-2-3-collision')
+def refusal_covers(confs):
+    tags = []
+    for c in confs:
+        tags += [c['name'] + ':' + t for t in ('accepted', 'refused-2-2', 'refused-2-3', 'refused-2-3-zero', 'refused-2-6')]
+        if c['local_as'] == c['peer_as'] and c['local_as'] <= 65535:
+            tags.append(c['name'] + ':refused-2-3-collision')
     return tuple(tags)
 
 
@@ -605,15 +614,22 @@ def roundtrip_confs(tier):
     return out
 
 
-def h_roundtrip(ctx, confs):
-    c = ctx.pick('conf', confs)
+def h_roundtrip(ctx, groups):
+    g = ctx.pick('group', sorted(groups))
+    c = ctx.pick('conf', groups[g])
+    ctx.cover('group-' + g)
     return roundtrip_one(ctx, c)
 
 
 # ------------------------------------------------------------------------------------------------ raw
 
 
-def h_raw(ctx, n):
+# capabilities ExaBGP decodes that are defined outside the RFCs of this property (RFC 4724, drafts, private use)
+OTHER_CAPABILITIES = (64, 67, 68, 71, 72, 73, 74, 75, 76, 77, 128, 131, 185)
+
+
+def h_raw(ctx, lengths):
+    n = lengths[0] if len(lengths) == 1 else ctx.pick('n', lengths)
     neighbor = K.neighbor_from(conf_text(CAPS_QUICK[0]))
     body = ctx.bytes('o', n)
     neg, ours, wire = real_session(neighbor)
@@ -634,17 +650,26 @@ def h_raw(ctx, n):
                   sig='C07:raw:wrong-notification:want=%s:got=%s' % ('|'.join('%d/%d' % x for x in allowed), gs), info={'got': got, 'allowed': allowed})
         return tag
     d = want[1]
-    lenient = d['trailing'] > 0 or bool(d['odd'])
     if d['trailing']:
         ctx.cover('trailing-bytes')
     if d['odd']:
         ctx.cover('odd-capability-length')
     if got[0] == 'err':
-        # RFC silent: bytes after the declared parameters, or a capability value of an unexpected length, may be refused as malformed
-        ctx.check('valid-open-accepted', lenient and tuple(got[1:]) == (2, 0), sig='C07:raw:valid-open-refused:%d/%d%s' % (
-            got[1], got[2], ':rfc9072' if d['extended'] else ''), info={'got': got, 'extended': d['extended'], 'caps': len(d['caps'])})
-        ctx.note('class', 'refused-lenient')
-        return 'refused-lenient'
+        # RFC silent: bytes after the declared parameters, a capability value of an unexpected length, or a capability
+        # defined outside the RFCs of this property (ExaBGP decodes its value) may be refused as malformed
+        lenient = d['trailing'] > 0 or bool(d['odd'])
+        if not lenient:
+            lenient = any(ctx.concretize(code) in OTHER_CAPABILITIES for code, _ in d['caps'])
+        ok = lenient and tuple(got[1:]) == (2, 0)
+        info = {'got': got, 'extended': d['extended'], 'caps': len(d['caps'])}
+        if d['extended']:
+            # RFC 9072 2: the one octet length "MUST be ignored on receipt" once the type octet says 255
+            ctx.check('valid-extended-open-accepted', s_implies(body[9] == 255, ok), sig='C07:raw:valid-open-refused:%d/%d:rfc9072' % got[1:], info=info)
+            ctx.check('non-ext-length-ignored', s_implies(body[9] != 255, ok), sig='C07:raw:rfc9072-non-ext-length-not-ignored', info=info)
+        else:
+            ctx.check('valid-open-accepted', ok, sig='C07:raw:valid-open-refused:%d/%d' % got[1:], info=info)
+        ctx.note('class', 'refused-lenient' if ok else 'valid-open-refused')
+        return 'refused-lenient' if ok else 'valid-open-refused'
     ctx.cover('open')
     if d['extended']:
         ctx.cover('open-extended')
@@ -663,6 +688,74 @@ def h_raw(ctx, n):
             wcodes.append(code)
     ctx.check('capability-codes', codes == sorted(wcodes), sig='C07:raw:capability-codes', info={'got': codes, 'want': sorted(wcodes)})
     return ('open', len(d['caps']))
+
+
+# ------------------------------------------------------------------------------------------------ capvalue
+
+
+CAPVALUE = {  # code -> (name, value lengths explored)
+    O.CAP_MP: ('multiprotocol', (0, 3, 4, 5)),
+    O.CAP_ROUTE_REFRESH: ('route-refresh', (0, 1)),
+    O.CAP_EXT_NEXTHOP: ('extended-nexthop', (0, 5, 6)),
+    O.CAP_EXT_MESSAGE: ('extended-message', (0, 1)),
+    O.CAP_ASN4: ('asn4', (0, 2, 3, 4, 5)),
+    O.CAP_ADDPATH: ('add-path', (0, 3, 4, 8)),
+    O.CAP_ENHANCED_REFRESH: ('enhanced-route-refresh', (0, 1)),
+    200: ('unknown-200', (0, 1, 4)),
+}
+
+
+def h_capvalue(ctx):
+    code = ctx.pick('code', sorted(CAPVALUE))
+    return capvalue_one(ctx, code)
+
+
+def capvalue_one(ctx, code):
+    """One capability of the peer with a free symbolic VALUE (code and length concrete) through the real
+    Capabilities.unpack / <Capability>.unpack_capability; the decoded object must say what the oracle reads."""
+    neighbor = K.neighbor_from(conf_text(CAPS_QUICK[0]))
+    n = ctx.pick('len', CAPVALUE[code][1])
+    value = ctx.bytes('v', n)
+    items = list(value)
+    if code == O.CAP_ADDPATH:
+        # the AFI/SAFI of an ADD-PATH entry key a dict (hash): concrete families, free send/receive octet
+        for i, fam in zip(range(0, n - 3, 4), [(1, 1), (2, 1)]):
+            items[i:i + 3] = [0, fam[0], fam[1]]
+    if code == O.CAP_EXT_NEXTHOP and n >= 4:
+        ctx.assume(items[2] == 0, 'extended next hop capability: the high octet of the 2-octet NLRI SAFI is 0 (every SAFI fits one octet)')
+    body = K.peer_open_body(families=(), asn4=False, extra_caps=[code, n] + items)
+    neg, ours, wire = real_session(neighbor)
+    opened, refused = decode_peer(ctx, body, neg)
+    want = O.decode_open(body, bool)
+    ctx.check('oracle-accepts-structure', want[0] == 'open' and len(want[1]['caps']) == 1, sig='C07:harness:capvalue-structure')
+    d = want[1]
+    odd = bool(d['odd'])
+    cname = CAPVALUE[code][0] + ':'
+    if refused is not None:
+        ctx.cover(cname + 'refused')
+        ctx.check('refused-only-when-malformed', odd and refused == (2, 0), sig='C07:capvalue:%s:valid-value-refused:len=%d' % (CAPVALUE[code][0], n),
+                  info={'notify': refused})
+        return (code, 'refused', n, refused)
+    ctx.cover(cname + 'accepted')
+    if odd:
+        ctx.cover(cname + 'accepted-odd-length')
+        return (code, 'accepted-odd', n)
+    v = O.view(d)
+    cap = opened.capabilities.get(code)
+    ctx.check('capability-stored', cap is not None and [int(k) for k in opened.capabilities] == [code], sig='C07:capvalue:%s:not-stored' % CAPVALUE[code][0])
+    if cap is None:
+        return (code, 'missing', n)
+    name = CAPVALUE[code][0]
+    if code == O.CAP_MP:
+        ctx.check('value', sx_eq([tuple(f) for f in cap], v['families']), sig='C07:capvalue:%s:value' % name)
+    elif code == O.CAP_ASN4:
+        ctx.check('value', sx_eq(cap, v['asn4']), sig='C07:capvalue:%s:value' % name)
+    elif code == O.CAP_ADDPATH:
+        gotd = {(int(a), int(s)): m for (a, s), m in cap.items()}
+        ctx.check('value', sx_eq(gotd, v['addpath']), sig='C07:capvalue:%s:value' % name, info={'got': gotd, 'want': v['addpath']})
+    elif code == O.CAP_EXT_NEXTHOP:
+        ctx.check('value', sx_eq([tuple(x) for x in cap], v['nexthop']), sig='C07:capvalue:%s:value' % name)
+    return (code, 'accepted', n)
 
 
 # ------------------------------------------------------------------------------------------------ requirepath
@@ -744,28 +837,52 @@ def h_read_open(ctx):
 # ------------------------------------------------------------------------------------------------ units
 
 
+def guarded(kind, fn):
+    """Nothing but Notify may escape the code under test: any other exception is a violation with its own signature
+    (the runner by itself records an escaping exception as an outcome, not as a failure)."""
+    def run(ctx):
+        try:
+            return fn(ctx)
+        except Exception as exc:
+            import traceback
+            where = [f for f in traceback.extract_tb(exc.__traceback__) if '/src/exabgp/' in f.filename]
+            site = '%s:%s' % (where[-1].filename.split('/src/exabgp/')[-1], where[-1].name) if where else 'harness'
+            ctx.check('only-notify-escapes', False, sig='C07:%s:exception:%s:%s' % (kind, type(exc).__name__, site), info={'error': str(exc)[:200]})
+            return ('exception', type(exc).__name__)
+    return run
+
+
 def units(tier):
+    """Few, larger units: every unit is a fresh process that installs the import hook (seconds).  The cheap units carry
+    the HIGHER weights on purpose: the runner starts units by decreasing weight, and started first they spread over all
+    workers instead of being eaten one after the other by the first idle worker at the end of the run."""
     thorough = tier == 'thorough'
     us = []
     pool = (F4, F6, V4, M4) if thorough else (F4, F6, V4)
     for c in (CAPS_THOROUGH if thorough else CAPS_QUICK):
         us.append(Unit('nego/caps/' + c['name'], lambda ctx, c=c: h_caps(ctx, c, pool), must_cover=caps_covers(c), max_paths=60000,
-                       max_seconds=900 if thorough else 160, weight=200 if thorough else 100))
-    for c in (REFUSAL_THOROUGH if thorough else REFUSAL_QUICK):
-        us.append(Unit('nego/refusal/' + c['name'], lambda ctx, c=c: h_refusal(ctx, c), must_cover=refusal_covers(c), weight=10))
+                       max_seconds=900 if thorough else 160, weight=1))
+    rconfs = REFUSAL_THOROUGH if thorough else REFUSAL_QUICK
+    us.append(Unit('nego/refusal', lambda ctx: h_refusal(ctx, rconfs), must_cover=refusal_covers(rconfs), weight=20))
     for c in ([CAPS_QUICK[0], CAPS_QUICK[1], CAPS_QUICK[5], CAPS_QUICK[2]] if thorough else [CAPS_QUICK[5], CAPS_QUICK[1]]):
         us.append(Unit('nego/layout/' + c['name'], lambda ctx, c=c: h_layout(ctx, c),
-                       must_cover=tuple('layout-' + x for x in LAYOUTS) + tuple('dup-' + x for x in DUPS) + tuple('order-' + x for x in ORDERS), weight=20))
+                       must_cover=tuple('layout-' + x for x in LAYOUTS) + tuple('dup-' + x for x in DUPS) + tuple('order-' + x for x in ORDERS), weight=10))
     groups = roundtrip_confs(tier)
-    for g, confs in groups.items():
-        cov = {'caps': ('params<255',), 'refusal': ('params<255',), 'hostname': ('params<255', 'params>255'),
-               'sweep': ('params<255', 'params=255', 'params>255')}[g]
-        us.append(Unit('roundtrip/' + g, lambda ctx, confs=confs: h_roundtrip(ctx, confs), must_cover=cov, weight=5))
-    for n in (list(range(0, 18)) if thorough else list(range(0, 15))):
-        cov = ('err-1/2',) if n < 10 else ('err-2/1', 'open') + (('err-2/0',) if n >= 11 else ()) + (('err-2/4',) if n >= 12 else ()) + (
-            ('open-extended',) if n >= 13 else ()) + (('open-with-capability',) if n >= 14 else ())
-        us.append(Unit('raw/L%02d' % n, lambda ctx, n=n: h_raw(ctx, n), must_cover=cov, max_paths=60000, max_seconds=1000 if thorough else 160,
-                       weight=1 + (0 if n < 12 else 4 ** (n - 11))))
-    us.append(Unit('requirepath/modes', h_requirepath, must_cover=tuple('ours=%d,theirs=%d' % (a, b) for a in range(4) for b in range(4)), weight=5))
-    us.append(Unit('proto/read-open', h_read_open, must_cover=('open-first', 'not-open-first'), weight=1))
+    us.append(Unit('roundtrip/all', lambda ctx: h_roundtrip(ctx, groups),
+                   must_cover=('params<255', 'params=255', 'params>255') + tuple('group-' + g for g in groups), weight=20))
+    us.append(Unit('raw/L00-12', lambda ctx: h_raw(ctx, list(range(0, 13))),
+                   must_cover=('err-1/2', 'err-2/1', 'err-2/0', 'err-2/4', 'open', 'trailing-bytes'), weight=20))
+    for n in ((13, 14, 15) if thorough else (13, 14)):
+        us.append(Unit('raw/L%02d' % n, lambda ctx, n=n: h_raw(ctx, [n]), must_cover=('err-2/1', 'err-2/0', 'err-2/4', 'open', 'open-extended') + (
+            ('open-with-capability',) if n >= 14 else ()), max_paths=60000, max_seconds=1000 if thorough else 160, weight=5 if n < 15 else 2))
+    cv = []
+    for code, (name, lens) in CAPVALUE.items():
+        cv.append(name + ':accepted')
+        if code in (O.CAP_MP, O.CAP_ASN4, O.CAP_ADDPATH, O.CAP_EXT_NEXTHOP):
+            cv.append(name + ':refused')
+    us.append(Unit('capvalue/all', h_capvalue, must_cover=tuple(cv), weight=10))
+    us.append(Unit('requirepath/modes', h_requirepath, must_cover=tuple('ours=%d,theirs=%d' % (a, b) for a in range(4) for b in range(4)), weight=20))
+    us.append(Unit('proto/read-open', h_read_open, must_cover=('open-first', 'not-open-first'), weight=20))
+    for u in us:
+        u.fn = guarded(u.name.split('/')[0], u.fn)
     return us
